@@ -29,6 +29,8 @@ let halt_of s = if s = "-" then None else Some (nat_of_int (int_of_string s))
 let () =
   let sz = ref { sz_leaf = z_of_int 11; sz4 = z_of_int 48; sz16 = z_of_int 160; sz48 = z_of_int 672; sz256 = z_of_int 2064 } in
   let d = ref db0 in
+  let allocs = Array.length Sys.argv > 1 && Sys.argv.(1) = "allocs" in
+  let show_allocs r = if not allocs then "" else match r with Ok n -> Printf.sprintf " a=%d" (int_of_nat n) | Err _ -> " a=?" in
   (try while true do
     let line = input_line stdin in
     let toks = split_on ' ' line in
@@ -39,13 +41,17 @@ let () =
     | ["N"] -> d := db0; print_endline "N"
     | ["I"; k; v] ->
       let k = unhex k and v = unhex v in
+      let a = show_allocs (db_insert_allocs !d k v) in
       (match db_insert !sz !d k v with
-       | Ok (d', r) -> d := d'; print_endline (if r then "1" else "0")
+       | Ok (d', r) -> d := d'; print_endline ((if r then "1" else "0") ^ a)
        | Err _ as e -> print_endline (show_res (fun _ -> "") e))
     | ["R"; k] ->
+      let a = show_allocs (db_remove_allocs !d (unhex k)) in
       (match db_remove !sz !d (unhex k) with
-       | Ok (d', r) -> d := d'; print_endline (if r then "1" else "0")
+       | Ok (d', r) -> d := d'; print_endline ((if r then "1" else "0") ^ a)
        | Err _ as e -> print_endline (show_res (fun _ -> "") e))
+    | ["LK"] | ["LV"] -> print_endline "length_error"
+    | ["G"; k] when allocs -> print_endline (show_res (function None -> "0" | Some _ -> "1") (db_get !d (unhex k)))
     | ["G"; k] ->
       print_endline (show_res (function None -> "-" | Some (id, v) -> string_of_int (int_of_z id) ^ ":" ^ hexs v) (db_get !d (unhex k)))
     | ["E"] -> print_endline (if db_empty !d then "1" else "0")
